@@ -1,6 +1,8 @@
 package main
 
 import (
+	"strings"
+	"os"
 	"math/rand"
 	"sort"
 
@@ -159,10 +161,23 @@ func (r *seqRun) readOp(h *StoreH, kind string) bool {
 	return true
 }
 
+var dropOps = func() map[string]bool {
+	m := map[string]bool{}
+	for _, o := range strings.Split(os.Getenv("VERIF_DROPOP"), ",") {
+		if o != "" {
+			m[o] = true
+		}
+	}
+	return m
+}()
+
 func (r *seqRun) step() bool {
 	w := r.w
 	op := pick(w.rng, r.cfg.profile)
 	m := r.main
+	if dropOps[op] {
+		return true // diagnostic (VERIF_DROPOP=a,b): which operation does a failure need?
+	}
 	switch op {
 	case "set", "setrand", "setbad":
 		name, ok := r.existingName(m)
